@@ -34,11 +34,90 @@ pub enum Error {
     Unknown(()),
 }
 
+/// Appointment row without heap pointers (rows with pointers make CBMC copy table slots byte-wise; measured: out of
+/// memory vs. seconds). The blob is represented by its length and its first two bytes (`blob_tag`, all the decrypt
+/// model looks at), the user signature by its first byte (0 = empty): on the harness universe these identify them.
+#[derive(Debug, Clone, Copy, PartialEq, Eq)]
+pub struct AppRow {
+    pub locator: Locator,
+    pub blob_len: usize,
+    pub blob_tag: [u8; 2],
+    pub to_self_delay: u32,
+    pub sig: u8,
+    pub start_block: u32,
+    pub user_id: UserId,
+}
+
+/// Tracker row without heap pointers: transactions are identified by their lock time (harness universe: `tx(n)`).
+#[derive(Debug, Clone, Copy, PartialEq, Eq)]
+pub struct TrackerRow {
+    pub dispute: u32,
+    pub penalty: u32,
+    pub status: ConfirmationStatus,
+    pub user_id: UserId,
+}
+
+impl AppRow {
+    pub fn of(a: &ExtendedAppointment) -> Self {
+        let b = &a.inner.encrypted_blob;
+        let mut tag = [0u8; 2];
+        if b.len() > 0 {
+            tag[0] = b[0];
+        }
+        if b.len() > 1 {
+            tag[1] = b[1];
+        }
+        AppRow {
+            locator: a.inner.locator,
+            blob_len: b.len(),
+            blob_tag: tag,
+            to_self_delay: a.inner.to_self_delay,
+            sig: a.user_signature.as_bytes().first().copied().unwrap_or(0),
+            start_block: a.start_block,
+            user_id: a.user_id,
+        }
+    }
+    pub fn to_appointment(&self) -> ExtendedAppointment {
+        let mut blob = crate::verif_stubs::blob_of_len(self.blob_len);
+        if self.blob_len > 0 {
+            blob[0] = self.blob_tag[0];
+        }
+        if self.blob_len > 1 {
+            blob[1] = self.blob_tag[1];
+        }
+        ExtendedAppointment::new(
+            teos_common::appointment::Appointment::new(self.locator, blob, self.to_self_delay),
+            self.user_id,
+            crate::verif_stubs::sig_of(self.sig),
+            self.start_block,
+        )
+    }
+}
+
+impl TrackerRow {
+    pub fn of(t: &TransactionTracker) -> Self {
+        TrackerRow {
+            dispute: t.dispute_tx.lock_time.to_consensus_u32(),
+            penalty: t.penalty_tx.lock_time.to_consensus_u32(),
+            status: t.status,
+            user_id: t.user_id,
+        }
+    }
+    pub fn to_tracker(&self) -> TransactionTracker {
+        TransactionTracker {
+            dispute_tx: crate::verif_stubs::tx(self.dispute),
+            penalty_tx: crate::verif_stubs::tx(self.penalty),
+            status: self.status,
+            user_id: self.user_id,
+        }
+    }
+}
+
 #[derive(Debug)]
 pub struct Tables {
     pub users: HashMap<UserId, UserInfo>,
-    pub appointments: HashMap<UUID, ExtendedAppointment>,
-    pub trackers: HashMap<UUID, TransactionTracker>,
+    pub appointments: HashMap<UUID, AppRow>,
+    pub trackers: HashMap<UUID, TrackerRow>,
     pub last_known_block: Option<BlockHash>,
     pub key: Option<SecretKey>,
     /// Number of calls of the writing methods (harness observability: "no write happened").
@@ -57,6 +136,8 @@ impl Tables {
 }
 
 pub static mut TABLES: Tables = Tables::EMPTY;
+/// Argument of the last `load_trackers_with_confirmation_status` call (harness observability).
+pub static mut LAST_STATUS_QUERY: Option<ConfirmationStatus> = None;
 
 #[derive(Debug)]
 pub struct DBM {
@@ -107,7 +188,13 @@ impl DBM {
 
     pub(crate) fn load_user_locators(&self, user_id: UserId) -> Vec<Locator> {
         let t = t();
-        t.appointments.iter().filter(|(_, a)| a.user_id == user_id).map(|(_, a)| a.locator()).collect()
+        let mut v = Vec::with_capacity(crate::verif_collections::CAP);
+        for (_, a) in t.appointments.iter() {
+            if a.user_id == user_id {
+                v.push(a.locator);
+            }
+        }
+        v
     }
 
     pub(crate) fn load_all_users(&self) -> HashMap<UserId, UserInfo> {
@@ -138,7 +225,7 @@ impl DBM {
         if !t.users.contains_key(&appointment.user_id) {
             return Err(Error::MissingForeignKey);
         }
-        t.appointments.insert(uuid, appointment.clone());
+        t.appointments.insert(uuid, AppRow::of(appointment));
         Ok(())
     }
 
@@ -147,10 +234,12 @@ impl DBM {
         match t.appointments.get_mut(&uuid) {
             Some(a) => {
                 // the four updatable columns of the real UPDATE statement
-                a.inner.encrypted_blob = appointment.inner.encrypted_blob.clone();
-                a.inner.to_self_delay = appointment.inner.to_self_delay;
-                a.user_signature = appointment.user_signature.clone();
-                a.start_block = appointment.start_block;
+                let n = AppRow::of(appointment);
+                a.blob_len = n.blob_len;
+                a.blob_tag = n.blob_tag;
+                a.to_self_delay = n.to_self_delay;
+                a.sig = n.sig;
+                a.start_block = n.start_block;
                 Ok(())
             }
             None => Err(Error::NotFound),
@@ -158,7 +247,7 @@ impl DBM {
     }
 
     pub(crate) fn load_appointment(&self, uuid: UUID) -> Option<ExtendedAppointment> {
-        t().appointments.get(&uuid).cloned()
+        t().appointments.get(&uuid).map(|a| a.to_appointment())
     }
 
     pub(crate) fn appointment_exists(&self, uuid: UUID) -> bool {
@@ -169,17 +258,17 @@ impl DBM {
         let t = t();
         t.appointments
             .iter()
-            .filter(|(u, a)| !t.trackers.contains_key(*u) && locator.map_or(true, |l| a.locator() == l))
-            .map(|(u, a)| (*u, a.clone()))
+            .filter(|(u, a)| !t.trackers.contains_key(*u) && locator.map_or(true, |l| a.locator == l))
+            .map(|(u, a)| (*u, a.to_appointment()))
             .collect()
     }
 
     pub(crate) fn get_appointment_length(&self, uuid: UUID) -> Option<usize> {
-        t().appointments.get(&uuid).map(|a| a.inner.encrypted_blob.len())
+        t().appointments.get(&uuid).map(|a| a.blob_len)
     }
 
     pub(crate) fn get_appointment_user_and_length(&self, uuid: UUID) -> Option<(UserId, usize)> {
-        t().appointments.get(&uuid).map(|a| (a.user_id, a.inner.encrypted_blob.len()))
+        t().appointments.get(&uuid).map(|a| (a.user_id, a.blob_len))
     }
 
     pub(crate) fn remove_appointment(&self, uuid: UUID) {
@@ -206,15 +295,23 @@ impl DBM {
     }
 
     pub(crate) fn load_uuids(&self, locator: Locator) -> Vec<UUID> {
-        t().appointments.iter().filter(|(_, a)| a.locator() == locator).map(|(u, _)| *u).collect()
+        let mut v = Vec::with_capacity(crate::verif_collections::CAP);
+        for (u, a) in t().appointments.iter() {
+            if a.locator == locator {
+                v.push(*u);
+            }
+        }
+        v
     }
 
     pub(crate) fn batch_check_locators_exist(&self, locators: Vec<&Locator>) -> Vec<Locator> {
-        t().appointments
-            .iter()
-            .filter(|(_, a)| locators.iter().any(|l| **l == a.locator()))
-            .map(|(_, a)| a.locator())
-            .collect()
+        let mut v = Vec::with_capacity(crate::verif_collections::CAP);
+        for (_, a) in t().appointments.iter() {
+            if locators.iter().any(|l| **l == a.locator) {
+                v.push(a.locator);
+            }
+        }
+        v
     }
 
     pub(crate) fn store_tracker(&self, uuid: UUID, tracker: &TransactionTracker) -> Result<(), Error> {
@@ -226,7 +323,7 @@ impl DBM {
         if !t.appointments.contains_key(&uuid) {
             return Err(Error::MissingForeignKey);
         }
-        t.trackers.insert(uuid, tracker.clone());
+        t.trackers.insert(uuid, TrackerRow::of(tracker));
         Ok(())
     }
 
@@ -243,7 +340,7 @@ impl DBM {
     }
 
     pub(crate) fn load_tracker(&self, uuid: UUID) -> Option<TransactionTracker> {
-        t().trackers.get(&uuid).cloned()
+        t().trackers.get(&uuid).map(|r| r.to_tracker())
     }
 
     pub(crate) fn tracker_exists(&self, uuid: UUID) -> bool {
@@ -254,26 +351,30 @@ impl DBM {
         let t = t();
         t.trackers
             .iter()
-            .filter(|(u, _)| locator.map_or(true, |l| t.appointments.get(*u).map_or(false, |a| a.locator() == l)))
-            .map(|(u, tr)| (*u, tr.clone()))
+            .filter(|(u, _)| locator.map_or(true, |l| t.appointments.get(*u).map_or(false, |a| a.locator == l)))
+            .map(|(u, tr)| (*u, tr.to_tracker()))
             .collect()
     }
 
     pub(crate) fn load_trackers_with_confirmation_status(&self, status: ConfirmationStatus) -> Result<Vec<UUID>, Error> {
         let (height, confirmed) = status.to_db_data().ok_or(Error::MissingField)?;
+        unsafe { LAST_STATUS_QUERY = Some(status) };
         let t = t();
-        Ok(t.trackers
-            .iter()
-            .filter(|(_, tr)| match tr.status.to_db_data() {
+        let mut v = Vec::with_capacity(crate::verif_collections::CAP);
+        for (u, tr) in t.trackers.iter() {
+            let sel = match tr.status.to_db_data() {
                 Some((h, c)) => c == confirmed && if confirmed { h == height } else { h <= height },
                 None => false,
-            })
-            .map(|(u, _)| *u)
-            .collect())
+            };
+            if sel {
+                v.push(*u);
+            }
+        }
+        Ok(v)
     }
 
     pub(crate) fn load_penalties_summaries(&self) -> HashMap<UUID, PenaltySummary> {
-        t().trackers.iter().map(|(u, tr)| (*u, PenaltySummary::new(tr.penalty_tx.compute_txid(), tr.status))).collect()
+        t().trackers.iter().map(|(u, tr)| (*u, PenaltySummary::new(crate::verif_stubs::txid_model(&crate::verif_stubs::tx(tr.penalty)), tr.status))).collect()
     }
 
     pub(crate) fn store_last_known_block(&self, block_hash: &BlockHash) -> Result<(), Error> {
@@ -300,13 +401,21 @@ impl DBM {
     }
     pub(crate) fn verif_push_appointment(&self, uuid: UUID, a: ExtendedAppointment) {
         let t = tm();
-        t.appointments.insert(uuid, a);
+        t.appointments.insert(uuid, AppRow::of(&a));
         t.writes -= 1;
+        std::mem::forget(a);
     }
     pub(crate) fn verif_push_tracker(&self, uuid: UUID, tr: TransactionTracker) {
         let t = tm();
-        t.trackers.insert(uuid, tr);
+        t.trackers.insert(uuid, TrackerRow::of(&tr));
         t.writes -= 1;
+        std::mem::forget(tr);
+    }
+    pub(crate) fn verif_app_row(&self, uuid: UUID) -> Option<AppRow> {
+        t().appointments.get(&uuid).copied()
+    }
+    pub(crate) fn verif_tracker_row(&self, uuid: UUID) -> Option<TrackerRow> {
+        t().trackers.get(&uuid).copied()
     }
     pub(crate) fn verif_writes(&self) -> u32 {
         t().writes
